@@ -25,6 +25,7 @@ RULE = ('pools of 4 random pages (1-5 lines, sparse logits, empty and non-empty 
         'real processes. non-trivial = history in which the page under test is preceded by a different page; distinct = hash of (configuration, pool seed, history) Low megapixel limit exceeded by some pages only; even pages end with a skipped confident line and odd pages start with a decoded line; process counts 1, 3 and 8 for 6 pages. parse_folder on a folder (prefix-related names; images without XML with --skipp-missing-xml) vs on each page alone.')
 RULE += ' Round 6: Stage histories (over-long line, zero-height first line, single row vs regular rows) with an OCR stub sensitive to the padded batch width.'
 RULE += ' Round 7: Scans of two sizes sharing a padded network input; a direct decode_line call or an interrupted page before the page under test.'
+RULE += ' Round 8: Invariant at the decode_line hook (no stale LM state over a kept line); pages decoded across the hundredth line of a decoder; an injected out-of-memory fault in the direction filter.'
 ASSUMPTIONS = ['the reference result of a page is the one obtained from a freshly constructed instance that processes only that page',
                'transcriptions compared exactly, confidences within 1e-12', 'stub OCR network and toy LM as in C07 / C03']
 N = {'quick': 72, 'thorough': 4000}
